@@ -7,7 +7,7 @@ unset GOWORK
 one() {
   d="$1"; s=$(basename $(dirname $d))/$(basename $d)
   w=$(mktemp -d /tmp/gca-ben-XXXXXX)
-  rsync -a --exclude .git /repo/ "$w/"
+  git -C /repo archive HEAD | tar -x -C "$w"
   if ! (cd "$w" && patch -p1 -s --no-backup-if-mismatch < "$d/patch.diff" >/dev/null 2>&1); then echo -e "$s\tAPPLY-FAILED"; rm -rf "$w"; return; fi
   if ! (cd "$w" && go build ./... && go build -tags test ./...) >/dev/null 2>&1; then echo -e "$s\tBUILD-FAILED"; rm -rf "$w"; return; fi
   o=$(/verif/checker/bin/gcacheck -repo "$w" -prop all -tier quick -no-evidence 2>&1); rc=$?
